@@ -272,25 +272,31 @@ theorem deref_depth_threads_through_subscripts
     induction k with
     | zero =>
       intro d hd
-      rw [eval, deref, derefStr, hP]
+      rw [eval, resolve]
+      simp only
+      rw [derefR, derefStr, hP]
       simp only
       rw [dif_pos (by omega)]
     | succ k ih =>
       intro d hd
       by_cases hge : maxDepth ≤ d
-      · rw [eval, deref, derefStr, hP]
+      · rw [eval, resolve]
+        simp only
+        rw [derefR, derefStr, hP]
         simp only
         rw [dif_pos (by omega)]
-      · rw [eval, deref, derefStr, hP]
+      · rw [eval, resolve]
         simp only
-        rw [dif_neg (by omega), eval, deref, ih (d + 1) (by omega)]
+        rw [derefR, derefStr, hP]
+        simp only
+        rw [dif_neg (by omega), eval, resolve, ih (d + 1) (by omega)]
   exact key maxDepth d (by omega)
 
 /-- the same cycle entered at the subscript: `$((a[i]))` -/
 theorem deref_cycle_entered_at_subscript
     (hP : P (varStr env i) = some (.ref (.elem a (.ref (.var i))))) (d : Nat) :
     eval P d env (.ref (.elem a (.ref (.var i)))) = (env, .err .recursion) := by
-  rw [eval, deref, deref_depth_threads_through_subscripts P env i a hP d]
+  rw [eval, resolve, deref_depth_threads_through_subscripts P env i a hP d]
 
 /-- … on the assignment side: `(( a[i] = v ))` evaluates the subscript under the same counter, and
 nothing is assigned -/
@@ -299,18 +305,18 @@ theorem assign_subscript_depth_threads
     eval P d env (.assign (.elem a (.ref (.var i))) (.lit v)) = (env, .err .recursion) := by
   rw [eval, eval]
   simp only
-  rw [assignT, deref_depth_threads_through_subscripts P env i a hP d]
+  rw [resolve, deref_depth_threads_through_subscripts P env i a hP d]
 
-/-- … and for `a[i]++` / `a[i] op= e` (the target is read first, under the same counter) -/
+/-- … and for `a[i]++` / `a[i] op= e` (the subscript is resolved once, under the same counter) -/
 theorem incdec_subscript_depth_threads
     (hP : P (varStr env i) = some (.ref (.elem a (.ref (.var i))))) (d : Nat) (op : IncOp) :
     eval P d env (.incDec op (.elem a (.ref (.var i)))) = (env, .err .recursion) := by
-  rw [eval, deref, deref_depth_threads_through_subscripts P env i a hP d]
+  rw [eval, resolve, deref_depth_threads_through_subscripts P env i a hP d]
 
 theorem opassign_subscript_depth_threads
     (hP : P (varStr env i) = some (.ref (.elem a (.ref (.var i))))) (d : Nat) (op : BinOp) (r : Expr) :
     eval P d env (.opAssign op (.elem a (.ref (.var i))) r) = (env, .err .recursion) := by
-  rw [eval, deref, deref_depth_threads_through_subscripts P env i a hP d]
+  rw [eval, resolve, deref_depth_threads_through_subscripts P env i a hP d]
 
 end DerefDepth
 
